@@ -959,7 +959,11 @@ class ExecBase:
                 cond = z3.And(cond, self.truth(self.eval(test, sub), sub, node))
             val = self.evalv(node.value, sub).any()
             if len(self.pending) != npend:
-                self.oos("comprehension element may raise", node)
+                if not self.opts.get("abstract_comprehensions"):
+                    self.oos("comprehension element may raise", node)
+                # as for list comprehensions: the exceptional exits of the element expression are not followed (recorded assumption)
+                del self.pending[npend:]
+                self.assumptions.add(f"comprehension at line {node.lineno}: element expression assumed not to raise")
             if len(sub.pc) != len(st.pc):
                 # facts assumed while evaluating the element for an ARBITRARY key (callee postconditions): they hold for every key
                 for fact in sub.pc[len(st.pc):]:
